@@ -152,19 +152,43 @@ Example C08_example_program_is_read :
                     SDeclare (STR "z") (EVal (VBool false))] |}].
 Proof. vm_compute. reflexivity. Qed.
 
-(* a whole node: one header, the written body, the end marker (the fuel of the model's parse_node,
-   2 * tokens + 4, is a premise here: that it always suffices is not proved) *)
-Theorem C08_written_node_is_read_back_partial :
+(* whole scripts: file-level hashtags, one or more nodes (each with at least one header - a key with or
+   without a value - and a well-formed written body), end of input.  The model of tree.FromReader accepts
+   every such token sequence and returns the dialogue it stands for: headers as a map (last value of a key,
+   in key order), bodies by [meaning].  No fuel appears: the fuel the model gives its parsers
+   (2 * tokens + 4 per body, tokens + 1 for the node list) is proved sufficient (size_tokens). *)
+From YS Require Import Syntax.CommandText Proofs.StmtParserTop.
+
+Theorem C08_every_written_script_is_loaded :
   forall (er : expr -> list (kind * str)) (ewf : expr -> Prop),
   (forall e, Forall is_etok (er e)) ->
   (forall e, ewf e -> parse_expression (fst (take_etoks (er e))) = Some e) ->
   (forall f args, ewf (ECall f args) -> parse_call_toks (fst (take_etoks (er (ECall f args)))) = Some (f, args)) ->
   (forall v, ewf v -> (exists a, v = expr_of_atom a) \/ (exists f args, v = ECall f args) ->
              parse_value_toks (fst (take_etoks (er v))) = Some v) ->
-  forall k d v s ws e rest,
-    wfs er ewf ws K_BODY_END ->
-    wssize ws <= stmt_fuel (pws er ws ++ (K_BODY_END, e) :: rest) ->
-    parse_node ((K_ID, k) :: (K_HEADER_DELIMITER, d) :: (K_REST_OF_LINE, v) :: (K_BODY_START, s) :: pws er ws ++ (K_BODY_END, e) :: rest)
-    = Some ({| headers := [(k, v)]; body := meaning ws |}, rest).
-Proof. exact parse_written_node. Qed.
-Print Assumptions C08_written_node_is_read_back_partial.
+  forall tags ns, ns <> [] -> Forall (node_ok er ewf) ns ->
+    from_reader 0 (p_script er tags ns) = Some (map mean_node ns).
+Proof. exact written_script_is_loaded. Qed.
+Print Assumptions C08_every_written_script_is_loaded.
+
+(* non-vacuity: a two-node script over the variable-only expression writer meets the hypotheses, and the
+   theorem's conclusion computes *)
+Definition ex_line (t : str) : line := {| ltext := [TText t]; lcond := None; ltags := [] |}.
+Definition ex_nodes : list wnode :=
+  [{| wheaders := [(STR "title", Some (STR "Start")); (STR "tags", None)];
+      wbody := [WLine (ex_line (STR "hi"));
+                WBlock [WOpts [(ex_line (STR "a"), [WSet (STR "x") SAssign (EVar (STR "y"))]); (ex_line (STR "b"), [])] true;
+                        WBlock [WJumpName (STR "Other")]]] |};
+   {| wheaders := [(STR "title", Some (STR "Other"))];
+      wbody := [WIf (EVar (STR "c")) [WLine (ex_line (STR "then"))] [(EVar (STR "d"), [])] (Some [WCmd [RText (STR "stop")]])] |}].
+Example C08_example_script_hypotheses : Forall (node_ok er_var ewf_var) ex_nodes.
+Proof.
+  assert (Hl : forall t, t <> [] -> line_ok ewf_var (ex_line t)).
+  { intros t Ht. repeat split; cbn; try exact I; [discriminate|]. repeat constructor. exact Ht. }
+  repeat (constructor; try discriminate);
+    repeat first [ apply Hl; discriminate | exact I | discriminate | eexists; reflexivity | constructor
+                 | split | intros ? H; inversion H; subst | left; reflexivity | cbn; discriminate ].
+Qed.
+Example C08_example_script_is_loaded :
+  from_reader 0 (p_script er_var [STR "filetag"] ex_nodes) = Some (map mean_node ex_nodes).
+Proof. vm_compute. reflexivity. Qed.
